@@ -1,6 +1,6 @@
 #!/bin/bash
 # usage: tools/seed_eval.sh <Cxx> [seed-id] : confirm a sub-agent's change in its scratch worktree /tmp/wt-<id>, run our check on a scratch copy, file it under seeded/
-P=$1; ID=${2:-$1}; WT=/tmp/wt-$ID; SD=/tmp/seed-$ID
+P=$1; ID=${2:-$1}; WT=/tmp/wt-$ID; SD=/tmp/seed-$ID  # second argument: worktree id when it differs from the property
 [ -f $SD/demo.py ] || { echo "no demo"; exit 2; }
 git -C $WT diff > /dev/shm/seed-$ID.diff
 [ -s /dev/shm/seed-$ID.diff ] || { echo "empty patch"; exit 2; }
